@@ -351,3 +351,135 @@ def diff_streams(a, b):
     if len(a) != len(b):
         return min(len(a), len(b))
     return None
+
+
+# --------------------------------------------------------------------------- tie D helpers
+def ddmin(items, fails, max_tests=400):
+    """delta debugging: a (locally) minimal sub-list of `items` on which `fails` is still true"""
+    n, tests = 2, 0
+    items = list(items)
+    while len(items) >= 2 and tests < max_tests:
+        chunk = max(1, len(items) // n)
+        reduced = False
+        for i in range(0, len(items), chunk):
+            cand = items[:i] + items[i + chunk:]
+            tests += 1
+            if cand and fails(cand):
+                items, n, reduced = cand, max(n - 1, 2), True
+                break
+            if tests >= max_tests:
+                break
+        if not reduced:
+            if chunk == 1:
+                break
+            n = min(len(items), n * 2)
+    return items
+
+
+def run_exe(cmd, text, timeout=300):
+    """run a harness on a line-protocol input; a crash / sanitizer abort / timeout is a result, appended
+    as a final line so it shows up in the diff"""
+    rc, out, err = sh(cmd, input=text, timeout=timeout)
+    lines = out.split('\n')
+    if lines and lines[-1] == '':
+        lines.pop()
+    if rc != 0:
+        tag = 'TIMEOUT' if rc == -9 else f'CRASH rc={rc}'
+        m = re.search(r'(ERROR: AddressSanitizer: [\w-]+|runtime error: [^\n]{0,120}|Assertion [^\n]{0,160})', err)
+        lines.append(f'!! {tag} {m.group(1) if m else err.strip()[-160:]}')
+    return lines
+
+
+def split_histories(lines, sep='--'):
+    """outputs of several histories separated by a line `--`"""
+    out, cur = [], []
+    for l in lines:
+        if l == sep:
+            out.append(cur); cur = []
+        else:
+            cur.append(l)
+    if cur or not out:
+        out.append(cur)
+    return out
+
+
+def correspond(ctx, engine, harness_cmd, histories, spec=None, prefix=('reset',), timeout=600, label=None,
+               shrink=True, key_of=None, sep='--', valid=None):
+    """Tie D: run the same histories (lists of op lines) through the harness built from /repo and through the
+    Lean executable model (`librfn_model <engine>`), compare per history.
+      impl != spec (or impl != model when the model is the proven-equal stand-in for the spec)  -> violation
+      impl == spec but impl != model                                                         -> broken correspondence
+    `spec(history) -> expected output lines` is an optional independent oracle.
+    Returns number of histories on which everything agreed."""
+    if not ctx.build_model():
+        return 0
+    def run_both(hs):
+        text = ''.join('\n'.join(list(prefix) + h) + '\n' + sep + '\n' for h in hs)
+        impl = split_histories(run_exe(harness_cmd, text, timeout), sep)
+        mo_ = ctx.run_model([engine] if isinstance(engine, str) else list(engine), text, timeout).split('\n')
+        if mo_ and mo_[-1] == '':
+            mo_.pop()
+        model = split_histories(mo_, sep)
+        return impl, model
+    impl, model = run_both(histories)
+    npre = len(prefix)
+    agreed = 0
+    for i, h in enumerate(histories):
+        io = impl[i][npre:] if i < len(impl) else ['!! missing (harness died earlier)']
+        mo = model[i][npre:] if i < len(model) else ['!! missing']
+        so = spec(h) if spec else None
+        bad_spec = so is not None and io != so
+        bad_model = io != mo
+        if not bad_spec and not bad_model:
+            agreed += 1
+            continue
+        if i >= len(impl):   # harness died in an earlier history: rerun this one alone
+            impl1, model1 = run_both([h]); io, mo = impl1[0][npre:], model1[0][npre:]
+            bad_spec = so is not None and io != so; bad_model = io != mo
+            if not bad_spec and not bad_model:
+                agreed += 1; continue
+        if so is not None and not bad_spec:
+            ctx.broken.append(f'correspondence {label or engine}: model differs from implementation (implementation agrees with the spec) on history {h[:12]}...: model={mo[:6]} impl={io[:6]}')
+            break
+        # violation: shrink
+        def fails(cand):
+            if valid and not valid(cand):
+                return False       # a shrunk replay must stay inside the property's scope
+            im, mm = run_both([cand])
+            a, b = im[0][npre:], mm[0][npre:]
+            if spec:
+                return a != spec(cand)
+            return a != b
+        hh = ddmin(h, fails) if shrink and len(h) > 1 else h
+        im, mm = run_both([hh])
+        a, b = im[0][npre:], mm[0][npre:]
+        exp = spec(hh) if spec else b
+        k = diff_streams(a, exp)
+        ctx.violation({'obligation': f'{label or engine}: implementation vs ' + ('specification' if spec else 'proved model'),
+                       'ops': list(prefix) + hh, 'first_difference_at_output': k,
+                       'expected': exp[max(0, (k or 0) - 2):(k or 0) + 3], 'observed': a[max(0, (k or 0) - 2):(k or 0) + 3],
+                       'model': b[max(0, (k or 0) - 2):(k or 0) + 3], 'engine': engine,
+                       'how_to_rerun': f'./check {ctx.pid} --replay <this file>'},
+                      key=(key_of(hh) if key_of else 'ops:' + hashlib.sha1('\n'.join(hh).encode()).hexdigest()[:16]))
+        break
+    return agreed
+
+
+def replay_ops(ctx, path, engine, harness_cmd, spec=None, sep='--'):
+    r = json.load(open(path))
+    if 'ops' not in r:
+        print('replay names a broken obligation, not an input:', r.get('obligation'))
+        return 1
+    if not ctx.build_model():
+        return 2
+    text = '\n'.join(r['ops']) + '\n' + sep + '\n'
+    impl = split_histories(run_exe(harness_cmd, text), sep)[0]
+    model = split_histories(ctx.run_model([engine], text).rstrip('\n').split('\n'), sep)[0]
+    npre = 0
+    while npre < len(r['ops']) and r['ops'][npre] == 'reset':
+        npre += 1
+    exp = (['ok'] * 0 + impl[:npre] + spec(r['ops'][npre:])) if spec else model
+    k = diff_streams(impl, exp)
+    print('implementation:', impl[:40]); print('expected      :', exp[:40])
+    print('SAME' if k is None else f'DIFFER at output {k}')
+    return 0 if k is None else 1
